@@ -2,6 +2,13 @@
 import json
 
 CLAIMED = {
+    "C06": {
+        "level": "exploration",
+        "text": "Seeded search over message histories (hand-built and stream-produced ContextResults over disjoint window layouts) delivered in several seeded orders through a lazy iterator to both collectors under a dirty allocator; every collected array is compared row by row with a map model, the two forms with each other and all orders with each other. Sampling, not proof.",
+        "ref": "DESIGN.md section 3 (C06)",
+        "note": "Trusts the map model key -> row -> flag built from the messages themselves; disjoint windows only; three collector defects found this way are repaired by fix: commits (known_findings.jsonl).",
+        "technique": "deterministic simulation: seeded delivery orders of ContextResult messages into the collector fold, list/dict as replicas, dirty allocator, map-model oracle",
+    },
     "C05": {
         "level": "exploration",
         "text": "Seeded search over tables x configs x front-end sets x generator interleavings (abandon / restart / re-run / two configs on one stream object) x hash seeds x dirty-allocator patterns; each yielded ContextResult is compared with a reference window model, a direct call of the real test function on plain arrays, and the arguments a recording probe function received; replicas are compared pairwise. Sampling, not proof.",
